@@ -35,7 +35,8 @@ theorem search_reverse (l t : Bits) (a b : Nat) (hab : a ≤ b) (hb : b ≤ l.le
 
 /-! ### find / rfind -/
 
-/- Full statement: ∀ ba, findOp .lsb0 l t start stop ba = findOp .msb0 l.reverse t.reverse start stop ba   -/
+/- Full statement (false on the current tree for ba = true, finding `lsb0-aligned-find`):
+     ∀ ba, findOp .lsb0 l t start stop ba = findOp .msb0 l.reverse t.reverse start stop ba                -/
 /-- `find` under lsb0 = `find` of the reversed pattern in the reversed bits (same start/end, same result
     position, same errors), when `bytealigned` is off. -/
 theorem find_lsb0_mirror_partial (l t : Bits) (start stop : Option Int) :
@@ -46,13 +47,22 @@ theorem rfind_lsb0_mirror_partial (l t : Bits) (start stop : Option Int) :
     rfindOp .lsb0 l t start stop false = rfindOp .msb0 l.reverse t.reverse start stop false :=
   rfind_lsb0_mirror_partial_s l t start stop
 
-/-- With `bytealigned=True` the unchanged code aligns to stored (msb0) byte positions, not to mirrored ones. -/
+/-- With `bytealigned=True` the code aligns to stored (msb0) byte positions, not to mirrored ones
+    (known finding `lsb0-aligned-find`). -/
 theorem find_lsb0_alignedFind_witness :
     alignedFind true = true ∧
     findOp .lsb0 [false, true] [true] none none true = .ok none ∧
     findOp .msb0 [false, true].reverse [true].reverse none none true = .ok (some 0) ∧
     rfindOp .lsb0 [true, true] [true] none none true = .ok (some 1) ∧
     rfindOp .msb0 [true, true].reverse [true].reverse none none true = .ok (some 0) := by
+  decide
+
+/-- It is not an alignment in lsb0 coordinates either: in ten bits, `find(bytealigned=True)` reports position 9
+    (the documentation says "only at byte aligned positions"), while `findall(bytealigned=True)` — which aligns
+    lsb0 positions — finds nothing. -/
+theorem find_lsb0_alignedFind_not_aligned :
+    findOp .lsb0 [true, false, false, false, false, false, false, false, false, false] [true] none none true = .ok (some 9) ∧
+    findallOp .lsb0 [true, false, false, false, false, false, false, false, false, false] [true] none none none true = .ok [] := by
   decide
 
 /-! ### findall: the reverse chunk scan -/
